@@ -75,6 +75,7 @@ type Case struct {
 	Str     *BigStr            `json:"str,omitempty"` // bigstr: a string / []byte longer than 64 KiB, truncated
 	Big     *tgen.BigSpec      `json:"big,omitempty"` // bigcount: a container really holding more elements than the decoder preallocates
 	Ops     []int              `json:"ops,omitempty"`
+	Hostile int64              `json:"hostile,omitempty"` // readerops: the count / length crafted in front of Ops[0] (0: random bytes)
 	Bytes   []byte             `json:"bytes,omitempty"`
 }
 
@@ -623,6 +624,73 @@ func (e *engine) insertedPrefixJobs(in []byte, marks []tgen.Mark, depth int, u t
 	return jobs
 }
 
+// insertedCountJobs: the header-count mutations of family (2) applied to the
+// lists, sets, maps and strings INSIDE an inserted undeclared field (which the
+// decoder skips instead of decoding): negative, N+1, 2^24, 2^31-1 and, in the
+// compact protocol, counts beyond MaxInt32. A negative or oversized count must
+// be rejected on the skip path as well.
+func (e *engine) insertedCountJobs(in []byte, marks []tgen.Mark, depth int, u thriftspec.Field, ni, pos int) []*job {
+	start, end := -1, -1
+	for _, m := range marks {
+		if start < 0 {
+			if m.Kind == "field" && m.Depth == depth && m.N == int(u.ID) {
+				start = m.Off
+			}
+			continue
+		}
+		if (m.Kind == "field" || m.Kind == "stop") && m.Depth == depth {
+			end = m.Off
+			break
+		}
+	}
+	if start < 0 || end < 0 {
+		return nil
+	}
+	var jobs []*job
+	nm := 0
+	for mi, m := range marks {
+		if m.Off <= start || m.Off >= end {
+			continue
+		}
+		switch m.Kind {
+		case "list", "set", "map", "strlen":
+		default:
+			continue
+		}
+		if nm++; nm > 4 {
+			break
+		}
+		for _, nv := range []int64{-1, -1 << 31, int64(m.N) + 1, 1 << 24, 1<<31 - 1, 1 << 31, 1 << 35} {
+			nv := nv
+			if isBinary(e.c.P) && nv > 1<<31-1 {
+				continue
+			}
+			if nv < 0 && m.Kind != "strlen" && e.known[classNegCount] || nv >= 1<<24 && nv <= 1<<31-1 && e.known[classAlloc] {
+				continue
+			}
+			mutated, ok := withCount(e.c.P, in, m, nv)
+			if !ok {
+				continue
+			}
+			hostile := nv < 0 || nv >= 1<<24
+			where := "nested"
+			if depth == 1 {
+				where = "top-level"
+			}
+			e.label(fmt.Sprintf("insert-count.%s.%s", m.Kind, where))
+			mut := fmt.Sprintf("count=%d on a %s inside the undeclared field id %d %s (position %d of %s struct node %d)", nv, m.Kind, u.ID, u.V.T, pos, where, ni)
+			jobs = append(jobs, &job{pi: ProbeInfo{ID: fmt.Sprintf("insert-count:%d:%d:%d:%d", ni, pos, mi, nv), Group: "mutate", Mut: mut, Mark: m.Kind, N: nv}, in: mutated, nt: true, f: func() *evid.Failure {
+				_, err := e.unmarshal(mutated)
+				if hostile && err == nil {
+					return &evid.Failure{Oracle: "a negative or oversized length / element count is rejected (inside a field the target does not declare)", Observed: "nil error", Expected: "an error", Class: "hostile-size-accepted"}
+				}
+				return nil
+			}})
+		}
+	}
+	return jobs
+}
+
 func hasBoolField(v thriftspec.Value) bool {
 	switch v.T {
 	case thriftspec.Struct:
@@ -878,6 +946,9 @@ func (e *engine) target() {
 				}
 				n++
 				insJobs = append(insJobs, e.insertedPrefixJobs(in, marks2, structDepth(&tree, path), u, ni, pos, n)...)
+				if n%2 == 1 {
+					insJobs = append(insJobs, e.insertedCountJobs(in, marks2, structDepth(&tree, path), u, ni, pos)...)
+				}
 				mut := fmt.Sprintf("unknown field id %d %s at position %d of struct node %d (depth %d)", u.ID, u.V.T, pos, ni, len(path))
 				if u.V.T == thriftspec.Bool || hasBoolField(u.V) {
 					mut += " [bool field inside]"
@@ -1020,6 +1091,28 @@ func (e *engine) readerOps() {
 					return nil
 				}
 			}
+			if h := c.Hostile; i == 0 && (h < 0 || h > 1<<31-1) {
+				var err error
+				switch op {
+				case 6:
+					_, err = r.ReadBytes()
+				case 7:
+					_, err = r.ReadString()
+				case 8:
+					_, err = r.ReadLength()
+				case 11:
+					_, err = r.ReadList()
+				case 12:
+					_, err = r.ReadSet()
+				case 13:
+					_, err = r.ReadMap()
+				}
+				if err == nil {
+					return &evid.Failure{Oracle: fmt.Sprintf("negative or oversized lengths and element counts are rejected: Reader.%s on an announced %d returns an error", readerOpNames[op], h),
+						Observed: "nil error", Expected: "an error", Class: "hostile-size-accepted"}
+				}
+				return nil
+			}
 			switch op {
 			case 0:
 				r.ReadBool()
@@ -1034,26 +1127,69 @@ func (e *engine) readerOps() {
 			case 5:
 				r.ReadFloat64()
 			case 6:
-				r.ReadBytes()
+				avail := br.Len()
+				if b, err := r.ReadBytes(); err == nil && len(b) > avail {
+					return sizeFailure("ReadBytes", int64(len(b)))
+				}
 			case 7:
-				r.ReadString()
+				avail := br.Len()
+				if str, err := r.ReadString(); err == nil && len(str) > avail {
+					return sizeFailure("ReadString", int64(len(str)))
+				}
 			case 8:
-				r.ReadLength()
+				if n, err := r.ReadLength(); err == nil && n < 0 {
+					return sizeFailure("ReadLength", int64(n))
+				}
 			case 9:
 				r.ReadMessage()
 			case 10:
 				r.ReadField()
 			case 11:
-				r.ReadList()
+				if l, err := r.ReadList(); err == nil && l.Size < 0 {
+					return sizeFailure("ReadList", int64(l.Size))
+				}
 			case 12:
-				r.ReadSet()
+				if l, err := r.ReadSet(); err == nil && l.Size < 0 {
+					return sizeFailure("ReadSet", int64(l.Size))
+				}
 			case 13:
-				r.ReadMap()
+				if m, err := r.ReadMap(); err == nil && m.Size < 0 {
+					return sizeFailure("ReadMap", int64(m.Size))
+				}
 			}
 			return nil
 		}})
 	}
 	e.runGroup(jobs)
+}
+
+// sizeFailure: a Reader method handed out a negative (or impossible) size / length without an error.
+func sizeFailure(method string, n int64) *evid.Failure {
+	return &evid.Failure{Oracle: "negative or oversized lengths and element counts are rejected: Reader." + method + " returns an error, never such a size",
+		Observed: fmt.Sprintf("size / length %d with nil error", n), Expected: "an error", Class: "hostile-size-accepted"}
+}
+
+// hostileHeader returns the wire header of a list / set / map / string that
+// announces n elements / bytes (binary: any int32; compact: n >= 0).
+func hostileHeader(p int, op int, n int64) []byte {
+	if isBinary(p) {
+		var cnt [4]byte
+		binary.BigEndian.PutUint32(cnt[:], uint32(int32(n)))
+		switch op {
+		case 11, 12: // ReadList, ReadSet
+			return append([]byte{byte(thrift.I32)}, cnt[:]...)
+		case 13: // ReadMap
+			return append([]byte{byte(thrift.I32), byte(thrift.I32)}, cnt[:]...)
+		}
+		return cnt[:] // ReadBytes, ReadString, ReadLength
+	}
+	switch op {
+	case 11, 12:
+		return append([]byte{0xF0 | byte(thrift.I32)}, uleb(uint64(n))...)
+	case 13:
+		return append(uleb(uint64(n)), byte(thrift.I32)<<4|byte(thrift.I32))
+	}
+	return uleb(uint64(n))
 }
 
 // big reports whether the length prefix at the head of rest exceeds 1 MiB
@@ -1220,6 +1356,21 @@ func genCase(t *rapid.T, o *tgen.Opts) Case {
 	c := Case{P: rapid.SampledFrom([]int{0, 0, 1, 2, 2, 2}).Draw(t, "p"), RK: rapid.IntRange(0, len(readerKinds)-1).Draw(t, "rk")}
 	if rapid.IntRange(0, 9).Draw(t, "kind") == 0 {
 		c.Kind = "readerops"
+		if rapid.IntRange(0, 2).Draw(t, "crafted") == 1 {
+			// a hostile count / length directly in front of the method that reads it
+			op := rapid.SampledFrom([]int{11, 12, 13, 6, 7, 8}).Draw(t, "hop")
+			n := rapid.SampledFrom([]int64{-1, -1 << 31, -2, 1<<31 - 1, 1 << 24, 1 << 31, 1 << 35}).Draw(t, "hn")
+			if !isBinary(c.P) && n < 0 {
+				n = 1 << 31 // not expressible as a negative number: just beyond MaxInt32 instead
+			}
+			if isBinary(c.P) && n > 1<<31-1 {
+				n = -1
+			}
+			c.Bytes = append(hostileHeader(c.P, op, n), genRandomBytes(t)...)
+			c.Ops = []int{op}
+			c.Hostile = n
+			return c
+		}
 		c.Bytes = genRandomBytes(t)
 		c.Ops = rapid.SliceOfN(rapid.IntRange(0, len(readerOpNames)-1), 1, 12).Draw(t, "ops")
 		return c
@@ -1341,6 +1492,9 @@ func apply(o outcome) {
 func caseLabels(c Case) {
 	p := thriftspec.Proto(c.P % 3).String()
 	evid.Label("case." + c.Kind + "." + p)
+	if c.Kind == "readerops" && c.Hostile != 0 {
+		evid.Label(fmt.Sprintf("readerops.crafted-hostile-size.%s.%s", readerOpNames[c.Ops[0]%len(readerOpNames)], p))
+	}
 	if c.Str != nil {
 		evid.Label(fmt.Sprintf("bigstr.%s.%d.bytes=%v", c.Str.Where, c.Str.Size, c.Str.Bytes))
 	}
@@ -1386,7 +1540,7 @@ func TestDecode(t *testing.T) {
 	o := &tgen.Opts{Small: true, NoWideIDs: evid.KnownActive(classWideIDs)}
 	// While the allocation / short-read defects are listed every few cases cost
 	// a worker restart or a stall; on a tree without them a case takes ~0.2 ms.
-	n := 4000
+	n := 3500
 	if evid.KnownActive(classAlloc) || evid.KnownActive(classShortRead) {
 		n = 500
 	}
